@@ -18,7 +18,7 @@ func init() {
 			return evid.Spec{ID: "C19", Level: "exploration", Exhaustive: true,
 				Rule: "(i) seen-bytes enumeration: for each packet type every combination of the first 9 body octets over {0,1,2,255} (length octets of every layout fall in that range) x 0..3 trailing bytes, plus 16-bit length pairs over {0,1,2,256,65535}, " +
 					"sent obfuscated under the server's key so the server sees exactly those bytes; (ii) 5 client x 5 server secrets x a corpus of valid requests of all four request layouts x 3 (session, seq) pads; " +
-					"(iii) every corpus request under the right key and in the clear under every server key; (iv) every odd client sequence number 1..255 x 2 session ids x {inconsistent bytes, corpus requests under a wrong key, the right key, in the clear}. The reference classifies the bytes the server will see under every layout of the type: " +
+					"(iii) every corpus request under the right key and in the clear under every server key; (iv) every odd client sequence number 1..255 x 2 session ids x {inconsistent bytes, corpus requests under a wrong key, the right key, in the clear}; (v) mismatching packets followed in the same segment by one octet, by the header or by the whole of the client's next packet. The reference classifies the bytes the server will see under every layout of the type: " +
 					"all layouts inconsistent => MUST signal (no handler, exactly one ERROR packet of the same type obfuscated with the server key, close); exact request layout or unencrypted flag => MUST NOT signal (handler runs, nothing written); " +
 					"otherwise either complete behaviour is accepted. distinct_nontrivial counts distinct (type, seen bytes) in the MUST or MUST-NOT class",
 				Assumptions: []string{"classification by mc/ref/layout.go Decode (announced variable lengths exceed the bytes that follow = inconsistent)"}}
@@ -37,6 +37,9 @@ type c19Case struct {
 	Session   uint32 `json:"session"`
 	Seq       byte   `json:"seq"`
 	Flags     byte   `json:"flags"`
+	// Behind: what the client has already sent behind this packet, in the same segment: "" nothing, "byte" one octet,
+	// "header" the 12 header octets of its next packet, "packet" its complete next (well-formed) packet
+	Behind string `json:"behind,omitempty"`
 }
 
 type c19World struct {
@@ -107,6 +110,18 @@ func c19One(c *Ctx, cw *c19World, cs c19Case) {
 	c.R.Count("class-"+class, 1)
 	if class != "either" {
 		c.R.Distinct(evid.Hash(cs.Type, seen, class))
+	}
+	if cs.Behind != "" && class == "must" {
+		nh := ref.Header{Version: 0xc0, Type: cs.Type, Seq: 1, Session: cs.Session + 1}
+		next := ref.Packet(nh, []byte(cs.ServerKey), minimalRequest(cs.Type))
+		switch cs.Behind {
+		case "byte":
+			wire = append(wire, 0xc0)
+		case "header":
+			wire = append(wire, next[:12]...)
+		case "packet":
+			wire = append(wire, next...)
+		}
 	}
 	cw.rec.take()
 	closed, err := cw.w.Deliver(cw.conn, wire)
@@ -302,6 +317,21 @@ func c19Run(c *Ctx) {
 							c19One(c, cw, c19Case{Type: typ, Seen: fmt.Sprintf("%x", b), ClientKey: ck, ServerKey: sk, Session: p.sid, Seq: p.seq, Flags: 1})
 						}
 					}
+				}
+			}
+		}
+	}
+	// (v) a pipelining client: the mismatching packet has company in its segment - the signal is the same
+	for _, typ := range []byte{1, 2, 3} {
+		for _, behind := range []string{"byte", "header", "packet"} {
+			job++
+			if !c.Mine(job) {
+				continue
+			}
+			for _, seq := range []byte{1, 3, 253} {
+				c19One(c, cw, c19Case{Type: typ, Seen: "ffffffffffffffffff", ClientKey: skey, ServerKey: skey, Session: 0x1905, Seq: seq, Behind: behind})
+				for _, b := range corpus[typ][:3] {
+					c19One(c, cw, c19Case{Type: typ, Seen: fmt.Sprintf("%x", b), ClientKey: "fooman", ServerKey: skey, Session: 0x1905, Seq: seq, Behind: behind})
 				}
 			}
 		}
